@@ -62,7 +62,7 @@ func (s *vSched) gate(where string) {
 	<-a.resume
 }
 
-// release lets actor a run until it parks at its next gate or finishes.  If it does neither within 300 ms it is
+// release lets actor a run until it parks at its next gate or finishes.  If it does neither within 1.5 s it is
 // blocked on something only another actor can undo (it spins on the fast-slot lock or waits for a mutex): it is
 // left running and the caller goes on scheduling; its signal is consumed whenever it arrives.
 func (s *vSched) release(a *vActor) string {
@@ -88,7 +88,7 @@ func (s *vSched) release(a *vActor) string {
 		s.running[a] = true
 		a.resume <- struct{}{}
 	}
-	timeout := time.After(300 * time.Millisecond)
+	timeout := time.After(1500 * time.Millisecond)
 	for s.running[a] {
 		select {
 		case x := <-s.signal:
